@@ -273,6 +273,65 @@ def run(chk):
         if not found:
             return False, "no per-entry test of the optional value found in the enumeration loop", [], b.span
         return True, "", [b.span]
+    def every_attribute_evaluated():
+        """The macros split a key-value's attributes into its one `#[cfg]` and the hook attributes (`#[emit::as_debug]`, `#[emit::key]`, `#[emit::fmt]` ..)
+        that `eval_hooks` then applies.  Whatever reads `fv.attrs` there visits *all* of them: no iterator adaptor that can stop before the end
+        (`take_while`, `map_while`, `take`, `skip*`, `nth`, `find`, `position` ..) and no way out of a loop over them except exhaustion or the
+        duplicate-cfg error - an attribute written after the `#[cfg]` would be dropped and the value captured with the default hook."""
+        EARLY = ("take_while", "map_while", "take", "skip", "skip_while", "step_by", "nth", "last", "find", "position", "rposition", "find_map", "rev")
+        b = P.body("emit_macros::props::Props::push")
+        n = 0
+        for x in [b] + P.closures_of(b):
+            for c in x.calls(normal_only=True):
+                if not c.args:
+                    continue
+                o = x.origin(c.args[0])
+                names = mir.o_field_path(mir.o_root(o) if o[0] in ("ref", "deref", "copy") else o)[1] or []
+                rs = [str(r_) for r_ in common.roots(o)]
+                touches = "attrs" in names or any("attrs" in (mir.o_field_path(x.origin(a))[1] or []) for a in c.args)
+                if touches:
+                    n += 1
+                if c.callee.get("name") in EARLY and "iter" in (c.callee.get("trait") or c.callee.get("path") or "").lower():
+                    # does the adaptor's receiver derive from fv.attrs?
+                    def from_attrs(o_, d=0):
+                        if d > 10:
+                            return False
+                        if "attrs" in (mir.o_field_path(o_)[1] or []):
+                            return True
+                        if o_[0] == "call" and o_[1].args:
+                            return from_attrs(o_[1].body.origin(o_[1].args[0]), d + 1)
+                        if o_[0] in ("ref", "deref", "copy", "field", "downcast"):
+                            return from_attrs(o_[1], d + 1)
+                        return False
+                    if from_attrs(o):
+                        return False, ("the key-value's attributes are read through Iterator::%s at %s, which can stop before the last one: an attribute written "
+                                       "after the #[cfg] (as_debug, as_sval, key, fmt ..) never reaches eval_hooks and the value is captured with the default hook"
+                                       % (c.callee.get("name"), c.loc)), [], c.loc
+        if n < 1:
+            raise mir.AnchorMissing("reads of fv.attrs in emit_macros::props::Props::push")
+        # the loop over the attributes is left only on exhaustion or by returning the duplicate-cfg error
+        for h in sorted({h for s_, h in b.back_edges()}):
+            body = b.loop_body(h)
+            nx = [c for c in b.calls(normal_only=True) if c.bb in body and c.callee.get("name") == "next"]
+            if not nx or not any("attrs" in str(common.roots(b.origin(c.args[0]))) or True for c in nx):
+                continue
+            for u in sorted(body):
+                for v in b.succ(u):
+                    if v in body or b.blocks[v].get("cleanup"):
+                        continue
+                    t = b.blocks[u]["term"]
+                    if t["k"] == "switch":
+                        so = b.switch_origin(u)
+                        if so[0] == "discr" and mir.o_is_call(so[1], name="next"):
+                            continue
+                    # any other exit must be an error return
+                    rets = [mir.PathSummary(b, [u] + p_).ret() for rb in b.return_blocks() for p_ in b.acyclic_paths(v, rb, limit=50)]
+                    if not rets or not all(r_[0] == "agg" and r_[1].get("variant") == "Err" for r_ in rets):
+                        return False, "the loop over a key-value's attributes can be left before the last attribute without reporting an error", [], b.span
+        return True, "", [b.span]
+    if not getattr(chk, "_overlay", None):
+        chk.ob("C19.R2:every-attribute-evaluated", "every attribute of a key-value is seen when its cfg and hook attributes are split", every_attribute_evaluated)
+
     if not getattr(chk, "_overlay", None):
         from . import c02
         c02.loop_exit_rule(chk, P, "C19.R3:loop-exits")
